@@ -122,6 +122,7 @@ impl ColSpec {
     pub fn without_fk(&self) -> ColSpec {
         let mut c = self.clone();
         c.fk = None;
+        c.category = c.category.map(|x| canon_category(&x));
         c
     }
 
@@ -167,6 +168,15 @@ impl ColSpec {
                 }
             }
         }
+    }
+}
+
+/// The library's own spelling of a category name (so that a change of
+/// spelling in the library is not mistaken for a change of category).
+pub fn canon_category(name: &str) -> String {
+    match msi::Category::from_str(name) {
+        Ok(c) => c.to_string(),
+        Err(_) => name.to_string(),
     }
 }
 
